@@ -31,6 +31,7 @@ func (f wnFinding) Key() string {
 
 type WireNil struct {
 	Decoders     int
+	MsgRoots     int
 	sn           *stateNil
 	p            *Prog
 	root         *ssa.Function
@@ -507,6 +508,29 @@ func RunWireNil(p *Prog, root *ssa.Function, cmdFunctionNonNil bool) *WireNil {
 		}
 	}
 	w.Decoders = len(decoders)
+	// API entry points that receive an inbound message back from the application (approval verdicts): the message
+	// is the one the stack handed to the approval callbacks, i.e. wire data
+	var msgRoots []*ssa.Function
+	if fli := p.LookupIface("api", "FeatureLocalInterface"); fli != nil {
+		for i := 0; i < fli.NumMethods(); i++ {
+			m := fli.Method(i)
+			sig := m.Type().(*types.Signature)
+			takesMsg := false
+			for j := 0; j < sig.Params().Len(); j++ {
+				if isNamed(derefType(sig.Params().At(j).Type()), "api", "Message") {
+					takesMsg = true
+				}
+			}
+			if !takesMsg || m.Name() == "HandleMessage" {
+				continue
+			}
+			for _, impl := range p.ImplsOf(fli, m.Name()) {
+				msgRoots = append(msgRoots, impl)
+				walk(impl)
+			}
+		}
+	}
+	w.MsgRoots = len(msgRoots)
 	var fns []*ssa.Function
 	for f := range w.reach {
 		fns = append(fns, f)
@@ -541,6 +565,9 @@ func RunWireNil(p *Prog, root *ssa.Function, cmdFunctionNonNil bool) *WireNil {
 			}
 		})
 	}
+	// (no seeding needed for the message roots: the wire parts of api.Message are tainted heap fields already,
+	// because ProcessCmd stores the inbound header and command into them; marking the whole message would also
+	// taint its object references, which are not wire data)
 	for iter := 0; iter < 60; iter++ {
 		w.changed = false
 		for _, f := range fns {
